@@ -277,6 +277,7 @@ func witnesses(c *core.Ctx) {
 		}
 	}
 	dstWitness(c)
+	unalignedIntervalWitness(c)
 }
 
 // dstWitness replays Props.C13.Neg.dst_25h_day_slot_wraps on the real code with
@@ -299,19 +300,28 @@ func dstWitness(c *core.Ctx) {
 		opAll(c, monthK, t)
 		opAll(c, dayK, t)
 	}
-	t := base + 24*hour + 30*min // 23:30 EST on the 25-hour day
-	ft := monthK.calc.CalcFamilyTime(t)
-	fe := monthK.calc.CalcFamilyEndTime(ft)
-	var slot int
-	guarded(c, fmt.Sprintf("slot month %d %d %d", t, ft, 5*min), false, func() string {
-		slot = monthK.calc.CalcSlot(t, ft, 5*min)
-		return fmt.Sprint(slot)
-	})
-	if fe-ft+1 == 25*hour && int64(slot) != (t-ft)/(5*min) {
-		c.Branch("dst/25h-day-slot-wraps")
+	// C13's slot statement judged on the real code with time.Local = this DST zone (inside this
+	// witness only): 23:30 EST on the 25-hour day 2024-11-03, and 23:30 EDT on the 23-hour day 2024-03-10
+	judge := func(t int64, wantLen int64, key string) {
+		ft := monthK.calc.CalcFamilyTime(t)
+		fe := monthK.calc.CalcFamilyEndTime(ft)
+		var slot int64
+		guarded(c, fmt.Sprintf("slot month %d %d %d", t, ft, 5*min), false, func() string {
+			slot = int64(monthK.calc.CalcSlot(t, ft, 5*min))
+			return fmt.Sprint(slot)
+		})
+		if fe-ft+1 != wantLen*hour || !(ft <= t && t <= fe) {
+			c.Fail("dst-family-range", fmt.Sprintf("America/New_York t=%d: month-type family [%d,%d] (%d h), expected the %d-hour local day containing t", t, ft, fe, (fe-ft+1)/hour, wantLen))
+		}
+		if !(ft+slot*5*min <= t && t < ft+(slot+1)*5*min) {
+			c.Fail(key, fmt.Sprintf("time.Local=America/New_York, %d-hour local day: month-type family [%d,%d], t=%d, CalcSlot(t, familyStart, 5m)=%d but familyStart+slot*5m is %d ms below t (slot of t in the family: %d)",
+				wantLen, ft, fe, t, slot, t-(ft+slot*5*min), (t-ft)/(5*min)))
+		}
+		fmt.Printf("OBSERVATION DST (America/New_York, %dh day): family [%d,%d], t=%d CalcSlot(5m)=%d, slot of t in the family=%d\n",
+			wantLen, ft, fe, t, slot, (t-ft)/(5*min))
 	}
-	fmt.Printf("OBSERVATION DST (America/New_York 2024-11-03, 25h day): family [%d,%d] length %dh, t=%d CalcSlot(5m)=%d, slot of t in the family=%d\n",
-		ft, fe, (fe-ft+1)/hour, t, slot, (t-ft)/(5*min))
+	judge(base+24*hour+30*min, 25, "dst-25h-day-month-slot-wraps")
+	judge(time.Date(2024, 3, 10, 23, 30, 0, 0, loc).UnixMilli(), 23, "dst-23h-day-month-slot")
 }
 
 // ---------------------------------------------------------------- calendar sweep
